@@ -330,28 +330,9 @@ PPL::Polyhedron&
 PPL::Polyhedron::operator=(const Polyhedron& y) {
   // Being a protected method, we simply assert that topologies do match.
   PPL_ASSERT(topology() == y.topology());
-  space_dim = y.space_dim;
-  if (y.marked_empty()) {
-    set_empty();
-  }
-  else if (space_dim == 0) {
-    set_zero_dim_univ();
-  }
-  else {
-    status = y.status;
-    if (y.constraints_are_up_to_date()) {
-      con_sys.assign_with_pending(y.con_sys);
-    }
-    if (y.generators_are_up_to_date()) {
-      gen_sys.assign_with_pending(y.gen_sys);
-    }
-    if (y.sat_c_is_up_to_date()) {
-      sat_c = y.sat_c;
-    }
-    if (y.sat_g_is_up_to_date()) {
-      sat_g = y.sat_g;
-    }
-  }
+  // Copy and swap: if the copy throws, `*this' is left untouched.
+  Polyhedron tmp(y);
+  m_swap(tmp);
   return *this;
 }
 
